@@ -66,6 +66,36 @@ func (m *verifJobManager) execJob(shellCmd string, argv []string,
 	})
 }
 
+// VerifLocalExec, when non-nil, is handed the jobs of stages which run locally
+// whatever the job mode (`local = true`, preflight stages in cluster mode)
+// instead of their being started as processes by the local job manager.
+var VerifLocalExec func(*VerifJob)
+
+func verifLocalJob(m *LocalJobManager, shellCmd string, argv []string,
+	envs map[string]string, metadata *Metadata, resRequest *JobResources,
+	fqname string, shellName string, preflight bool) bool {
+	exec := VerifLocalExec
+	if exec == nil {
+		return false
+	}
+	res := m.GetSystemReqs(resRequest)
+	exec(&VerifJob{
+		ShellCmd:     shellCmd,
+		Argv:         argv,
+		Envs:         envs,
+		MetadataPath: metadata.path,
+		FilesPath:    metadata.curFilesPath,
+		JournalFile:  metadata.journalFile(),
+		Fqname:       fqname,
+		ShellName:    shellName,
+		Threads:      res.Threads,
+		MemGB:        res.MemGB,
+		Preflight:    preflight,
+		md:           metadata,
+	})
+	return true
+}
+
 // VerifNewRuntime builds a Runtime without needing the jobmanagers
 // configuration directory next to the executable.  If exec is non-nil all
 // non-local jobs are handed to it instead of being run as processes.
